@@ -27,16 +27,23 @@
                           so an entry written with a space after the comma is skipped
                           (repaired in /repo by the C02 work: entries are trimmed)
      MappedPeerUnmatched- addresses were compared by representation: an IPv4 client of a dual-stack
-                          listener appears as ::ffff:a.b.c.d, equal to no IPv4 list entry, so a listed
+                          listener appears as ::ffff:a.b.c.d, equal to no plainly written IPv4 list entry
+                          (and a plain IPv4 client is equal to no entry written in mapped form), so a listed
                           client was neither dropped nor refused (repaired in /repo: canonical forms)
-   the others are plausible regressions used to show that the invariants are not vacuous. *)
+   the others are plausible regressions used to show that the invariants are not vacuous; among them
+     MappedListEntryUnmatched - only the incoming address is brought to canonical form, the list entries
+                          are not, so an entry written as ::ffff:a.b.c.d matches nobody (a seeded change
+                          the first version of this check missed: list entries had one representation). *)
 EXTENDS Naturals, Sequences, FiniteSets, TLC
 
 CONSTANTS
   Addrs,     \* the addresses of the model: canonical texts of IP addresses (strings)
   Peers,     \* \subseteq Addrs: the source addresses clients connect from
-  DualStackPeers, \* \subseteq Peers: IPv4 clients that reach the server through a dual-stack listener
-             \* (address "::"), whose peer_addr() is therefore the IPv4-mapped form ::ffff:a.b.c.d
+  V4Addrs,   \* \subseteq Addrs: the IPv4 addresses (only they have an IPv4-mapped IPv6 form ::ffff:a.b.c.d)
+  Duals,     \* \subseteq BOOLEAN, offered to Init: TRUE = the server listens on a dual-stack address ("::"),
+             \* so the peer_addr() of an IPv4 client is its IPv4-mapped form
+  ListForms, \* \subseteq BOOLEAN, offered to Init: TRUE = the IPv4 entries of the blacklist file are written in
+             \* IPv4-mapped form (::ffff:127.0.0.2 or ::ffff:7f00:2) - still entries naming those addresses
   Garbage,   \* X-Forwarded-For entries that are not IP addresses (strings, disjoint from Addrs)
   Lists,     \* the blacklists offered to Init: a set of subsets of Addrs
   MaxXff,    \* maximal number of entries in an X-Forwarded-For value
@@ -46,12 +53,13 @@ CONSTANTS
 
 HistoricalDevs == {"ForbiddenTrustsXff", "XffUntrimmed", "MappedPeerUnmatched"}
 MutantDevs == {"CacheBeforeBlacklist", "ProxyUnchecked", "RedirectUnchecked", "OnlyProxiesChecked",
-               "NoConnCondition", "IgnoresXff", "BlockSkipsHandlerCheck"}
+               "NoConnCondition", "IgnoresXff", "BlockSkipsHandlerCheck", "MappedListEntryUnmatched"}
 DevNames == HistoricalDevs \cup MutantDevs
 
 ASSUME /\ Dev \subseteq DevNames
        /\ Peers \subseteq Addrs
-       /\ DualStackPeers \subseteq Peers
+       /\ V4Addrs \subseteq Addrs
+       /\ Duals \subseteq BOOLEAN /\ ListForms \subseteq BOOLEAN
        /\ Garbage \cap Addrs = {}
        /\ \A l \in Lists : l \subseteq Addrs
 
@@ -102,11 +110,17 @@ Decide(mode, list, peer, x) ==
 (* deviation set D so that generation can evaluate single deviations),     *)
 (* then the state machine that uses them with D = Dev.                     *)
 (***************************************************************************)
-\* the peer address as the comparison sees it: the address itself, or (deviation) its mapped
-\* representation, which is equal to nothing on any list
-MappedForm == "::ffff:0:0/96"
-ASSUME MappedForm \notin Addrs \cup Garbage
-PeerSeen(D, peer) == IF "MappedPeerUnmatched" \in D /\ peer \in DualStackPeers THEN MappedForm ELSE peer
+\* Representations.  An IPv4 address has two: plain and IPv4-mapped.  Occurrences in X-Forwarded-For are
+\* plain here; the peer's is mapped iff the listener is dual-stack; the list's IPv4 entries are mapped iff
+\* cf.lm.  The property is about addresses, so the ideal comparison ignores the representation
+\* (is_blacklisted compares to_canonical() of both sides); the two deviations do not.
+PeerMapped(cf, peer) == cf.dual /\ peer \in V4Addrs
+Match(D, cf, a, mapped) ==
+  LET v4 == a \in V4Addrs IN
+  IF a \notin cf.list THEN FALSE
+  ELSE IF "MappedListEntryUnmatched" \in D /\ v4 /\ cf.lm THEN FALSE   \* list side not canonicalised
+  ELSE IF "MappedPeerUnmatched" \in D /\ v4 THEN mapped = cf.lm        \* compared as written
+  ELSE TRUE
 
 \* IpAddr::from_str on one entry of split(',')
 Parsable(D, e) == IsAddr(e) /\ (("XffUntrimmed" \in D) => ~e.sp)
@@ -116,22 +130,25 @@ Parsable(D, e) == IsAddr(e) /\ (("XffUntrimmed" \in D) => ~e.sp)
 FromHeaders(D, peer, x) ==
   LET ps == SelectSeq(x.es, LAMBDA e : Parsable(D, e))
       n  == Len(ps)
-      me == PeerSeen(D, peer)
-  IN IF ~x.present \/ n = 0 \/ "IgnoresXff" \in D THEN [origin |-> me, proxies |-> <<>>]
-     ELSE [origin |-> ps[n].a, proxies |-> Append([i \in 1..(n - 1) |-> ps[i].a], me)]
+  IN IF ~x.present \/ n = 0 \/ "IgnoresXff" \in D THEN [origin |-> peer, proxies |-> <<>>]
+     ELSE [origin |-> ps[n].a, proxies |-> Append([i \in 1..(n - 1) |-> ps[i].a], peer)]
 
 \* server.rs verify_connection: TRUE = the connection is handed to the thread pool
 VerifyConnection(D, cf, peer) ==
   \/ "NoConnCondition" \in D
-  \/ ~(cf.mode = "block" /\ PeerSeen(D, peer) \in cf.list)
+  \/ ~(cf.mode = "block" /\ Match(D, cf, peer, PeerMapped(cf, peer)))
 
-\* static.rs blacklist_check / proxy.rs inline check on the parsed address `ad`
-BlacklistHit(D, cf, ad) ==
-  LET P == Range(ad.proxies)
+\* static.rs blacklist_check / proxy.rs inline check on the parsed address `ad`: AppState::is_blacklisted on
+\* the origin and on every proxy.  The socket peer is the last proxy, or the origin when there are none.
+BlacklistHit(D, cf, ad, peer) ==
+  LET n  == Len(ad.proxies)
+      pm == PeerMapped(cf, peer)
+      originHit == Match(D, cf, ad.origin, IF n = 0 THEN pm ELSE FALSE)
+      proxyHit  == \E i \in 1..n : Match(D, cf, ad.proxies[i], IF i = n THEN pm ELSE FALSE)
   IN IF "BlockSkipsHandlerCheck" \in D /\ cf.mode = "block" THEN FALSE
-     ELSE IF "OnlyProxiesChecked" \in D THEN P \cap cf.list # {}
-     ELSE IF "ForbiddenTrustsXff" \in D THEN ad.origin \in cf.list
-     ELSE ad.origin \in cf.list \/ P \cap cf.list # {}
+     ELSE IF "OnlyProxiesChecked" \in D THEN proxyHit
+     ELSE IF "ForbiddenTrustsXff" \in D THEN originHit
+     ELSE originHit \/ proxyHit
 
 HandlerChecks(D, rt) == ~( \/ ("ProxyUnchecked" \in D /\ rt = "proxy")
                            \/ ("RedirectUnchecked" \in D /\ rt = "redirect") )
@@ -142,14 +159,14 @@ Model(D, cf, peer, x, rt, warm) ==
   IF ~VerifyConnection(D, cf, peer) THEN "Dropped"
   ELSE LET ad == FromHeaders(D, peer, x) IN
        IF "CacheBeforeBlacklist" \in D /\ rt \in Cacheable /\ cf.cache /\ warm THEN "Served"
-       ELSE IF HandlerChecks(D, rt) /\ BlacklistHit(D, cf, ad) THEN "Forbidden403"
+       ELSE IF HandlerChecks(D, rt) /\ BlacklistHit(D, cf, ad, peer) THEN "Forbidden403"
        ELSE "Served"
 
 (***************************************************************************)
 (* State                                                                   *)
 (***************************************************************************)
 VARIABLES
-  cfg,      \* [mode, list, cache]: the configuration file; fixed after Init
+  cfg,      \* [mode, list, cache, dual, lm]: the configuration file (and how its list is written); fixed after Init
   cached,   \* set of <<route type, uri>> present in the file cache
   c         \* per connection slot: [st, peer, pc, x, rt, uri, warm, ad, out]
 vars == <<cfg, cached, c>>
@@ -158,7 +175,7 @@ NoAddr == [origin |-> "", proxies |-> <<>>]
 Fresh  == [st |-> "none", peer |-> "", pc |-> "idle", x |-> NoXff, rt |-> "", uri |-> "",
            warm |-> FALSE, ad |-> NoAddr, out |-> "none"]
 
-Cfgs == [mode : Modes, list : Lists, cache : BOOLEAN]
+Cfgs == [mode : Modes, list : Lists, cache : BOOLEAN, dual : Duals, lm : ListForms]
 
 ConnStates == {"none", "accepting", "open", "dropped"}
 BlPcs    == {"file_bl", "dir_bl", "redir_bl", "proxy_bl"}
@@ -232,7 +249,7 @@ Srv_Route(k) ==
 
 \* blacklist_check(&request, state): Some(403) or None
 Check(k, pass) ==
-  /\ IF HandlerChecks(Dev, c[k].rt) /\ BlacklistHit(Dev, cfg, c[k].ad)
+  /\ IF HandlerChecks(Dev, c[k].rt) /\ BlacklistHit(Dev, cfg, c[k].ad, c[k].peer)
      THEN Set(k, [c[k] EXCEPT !.pc = "respond", !.out = "Forbidden403"])
      ELSE Set(k, [c[k] EXCEPT !.pc = pass])
   /\ UNCHANGED <<cfg, cached>>
